@@ -144,6 +144,17 @@ def tree_spec(c, names, dates, topo, rows, keep_newick=None):
         spec["root_height"] = tt.P("root_height", shaped([r[1] for r in rows]))
     else:
         spec["shifts"] = tt.P("shifts", shaped([r[0] for r in rows]))
+    if c.get("wrapped"):
+        # the way the command-line tools write them: constrained parameters as transforms of unconstrained ones
+        def wrap(pid, transform, inv):
+            vals = np.asarray(spec[pid]["tensor"], dtype=float)
+            spec[pid] = {"id": pid, "type": "TransformedParameter", "transform": transform, "x": tt.P(pid + ".unres", inv(vals).tolist())}
+
+        if kind == "ratio":
+            wrap("ratios", "torch.distributions.SigmoidTransform", lambda v: np.log(v) - np.log1p(-v))
+            wrap("root_height", "torch.distributions.ExpTransform", np.log)
+        else:
+            wrap("shifts", "torch.distributions.ExpTransform", np.log)
     return spec
 
 
@@ -254,8 +265,8 @@ def device_body(c):
     hs = [(t, g[4]) for t, g in zip(sl, geo)]
     kind = c["tree"]["kind"]
     op = c["op"]
-    res = Res(nontrivial=kind == "shift" or op.startswith("inplace"), key=(sorted(sorted(x) for x in topo.clades()), kind, op, c["tree"]["tip_heights"], [np.round(list(h.values()), 6).tolist() for _, h in hs]),
-              labels=(kind, op), tags={"cls": kind, "op": op})
+    res = Res(nontrivial=kind == "shift" or op.startswith("inplace") or bool(c.get("wrapped")), key=(sorted(sorted(x) for x in topo.clades()), kind, op, bool(c.get("wrapped")), c["tree"]["tip_heights"], [np.round(list(h.values()), 6).tolist() for _, h in hs]),
+              labels=(kind, op) + (("transformed_parameters",) if c.get("wrapped") else ()), tags={"cls": kind, "op": op, "wrapped": bool(c.get("wrapped"))})
     rows = params_tensor(c, hs, n)
     tree, dic = tt.build(tree_spec(dict(c, B=0), names, dates, topo, rows[:1]))
     _ = tree.node_heights
@@ -288,9 +299,9 @@ def device_body(c):
         dic["shifts"].tensor = torch.tensor(rows[1][0], dtype=dt)
     want = np.array([hs[1][1][i] for i in range(2 * n - 1)])
     got = arr(tree.node_heights).reshape(-1)
-    tol = (1e-4 if op == "to32" else 1e-9) * max(1.0, float(want.max()))
+    tol = (1e-4 if op == "to32" else (1e-7 if c.get("wrapped") else 1e-9)) * max(1.0, float(want.max()))
     if maxabs(got, want) > tol:
-        return res.fail("parameterisation_changed", {"got": got.tolist(), "want": want.tolist()})
+        return res.fail("parameterisation_changed", {"got": got.tolist(), "want": want.tolist()}, wrapped=bool(c.get("wrapped")))
     return res
 
 
@@ -298,6 +309,7 @@ def device_body(c):
 def device_case(draw):
     c = draw(case(nmax=8, force_batch=2))
     c["op"] = draw(st.sampled_from(["cpu", "cpu", "to32", "to64", "inplace", "inplace", "inplace_twice"]))
+    c["wrapped"] = c["op"] in ("cpu", "to32", "to64") and draw(st.booleans())
     return c
 
 
